@@ -176,7 +176,7 @@ PROFILES = {
         'coverage': c08_coverage,
         'warnings': c08_warnings,
         'level': 'exploration',
-        'quick_runs': 4345,
-        'thorough_runs': 153300,
+        'quick_runs': 4350,
+        'thorough_runs': 153310,
     },
 }
